@@ -7,6 +7,8 @@ import (
 	"net"
 	"os"
 	"sort"
+	"strconv"
+	"strings"
 	"sync"
 	"syscall"
 	"time"
@@ -461,14 +463,17 @@ func (e *End) Accepted() bool {
 
 // Addresses look like real TCP: every server-side end has the listener's address as its local
 // address (all connections of one listener share it) and the client's ephemeral address as remote.
+// The addresses of a simulated connection are *net.TCPAddr values, as on a real server (code that looks at the
+// address type, the peer's IP or the address pair sees what it would see there). All clients share one host.
 func (e *End) clientAddr() net.Addr {
-	return Addr{fmt.Sprintf("10.0.0.%d:%d", 1+e.P.ID%200, 40000+e.P.ID)}
+	return &net.TCPAddr{IP: net.IPv4(10, 0, 0, 1), Port: 40000 + e.P.ID%20000}
 }
 func (e *End) serverAddr() net.Addr {
-	if e.P.Addr != "" {
-		return Addr{"10.0.0.254" + e.P.Addr}
+	port := 0
+	if i := strings.LastIndex(e.P.Addr, ":"); i >= 0 {
+		port, _ = strconv.Atoi(e.P.Addr[i+1:])
 	}
-	return Addr{"10.0.0.254:0"}
+	return &net.TCPAddr{IP: net.IPv4(10, 0, 0, 254), Port: port}
 }
 func (e *End) LocalAddr() net.Addr {
 	if e.Side == 0 {
